@@ -629,7 +629,7 @@ pub fn run(ctx: &Ctx) -> EvidenceMeta {
                 cases.push(KeyCase { tok: tiny.clone(), alt: KeyAlt::FlipBit(i) });
               }
               for sd in 0..if ctx.quick() { 120u16 } else { 2000 } {
-                cases.push(KeyCase { tok: tiny.clone(), alt: KeyAlt::OtherSeed((0..32).map(|j| (j as u8).wrapping_mul(41).wrapping_add(sd as u8).wrapping_add((sd >> 8) as u8 * 97)).collect()) });
+                cases.push(KeyCase { tok: tiny.clone(), alt: KeyAlt::OtherSeed((0..32).map(|j| (j as u8).wrapping_mul(41).wrapping_add(sd as u8).wrapping_add(((sd >> 8) as u8).wrapping_mul(97))).collect()) });
               }
             }
           }
